@@ -78,3 +78,16 @@ Fixpoint mismatches_from (i : nat) (cs : list fcase) : list (nat * N) :=
   end.
 
 Definition mismatches (cs : list fcase) : list (nat * N) := mismatches_from 0 cs.
+
+(* which known-finding input predicate (if any) does a history satisfy, according to the model:
+   0 none, 1 fence.drivermode.decided-without-business, 2 fence.drivermode.fault-at-commit *)
+Fixpoint hist_pred (w : world) (h : list (N * phase * option nat * bool)) : N :=
+  match h with
+  | [] => 0
+  | (k, ph, f, drv) :: h' =>
+      if drv && drv_decided (c_row (get w k)) ph then 1
+      else if drv && drv_fault_at_commit (c_row (get w k)) ph f then 2
+      else hist_pred (apply_dop w (if drv then DDrv k ph f else DApi (HDeliver k ph f))) h'
+  end.
+
+Definition case_preds (cs : list fcase) : list N := map (fun c => hist_pred [] (fc_hist c)) cs.
